@@ -142,10 +142,10 @@ class ListCorrector(Corrector):
             self.i = 0
 
         def __call__(self, w):
-            if self.data[self.i] == w:
-                return w
-            self.i += 1
+            # First word at or after w; lookups come in increasing order, so
+            # the search can start where the previous one ended
             pos = bisect_left(self.data, w, self.i)
+            self.i = pos
             if pos < len(self.data):
                 return self.data[pos]
             else:
